@@ -11,6 +11,7 @@ swapped argument, off-by-one) breaks them.
 import MenpoModel.Generated.C11Src
 import MenpoModel.Props.C11SrcPca
 import Mathlib.Tactic.Ring
+import Mathlib.Tactic.SplitIfs
 
 set_option linter.unusedSimpArgs false
 set_option linter.unusedTactic false
@@ -18,6 +19,16 @@ set_option linter.unreachableTactic false
 
 namespace MenpoModel.GenProps.C11Src
 open MenpoModel.C11 MenpoModel.C11.NP MenpoModel.Generated.C11Src MenpoModel.Py
+
+/-- closes `translated loop body = optLoop step` after the definitions are unfolded: whatever the nesting of the
+branches (copied continuations or one conditional update), decide every `if` / `match`, then rewrite with what was
+decided -/
+macro "np_leaf" : tactic => `(tactic| first
+  | rfl
+  | (cases h : Src.incCov _ _ _ _ _ <;> simp_all [shape0, shape1]; done)
+  | (simp_all [shape0, shape1]; done)
+  | ((repeat' split) <;> first | rfl | (simp_all [shape0, shape1]; done)))
+macro "np_cases" : tactic => `(tactic| first | (split_ifs <;> np_leaf) | np_leaf)
 
 theorem genIncMean_eq (X : M) (m : V) (n : Rat) : genIncMean X m n = Src.incMean X m n := by
   unfold genIncMean Src.incMean
@@ -44,11 +55,10 @@ theorem genIncDenseDiag_eq (inv : M → Option Nat → M) (X : M) (mean : V) (co
   simp only [genIncCov_eq]
   rw [loop_congr _ _ _ (optLoop (Src.denseDiagStep inv X mean n k nc bias)) (by
     intro acc it
-    simp only [optLoop, Src.denseDiagStep]
+    simp only [optLoop, Src.denseDiagStep, ite_fst, ite_snd]
     split
     · rfl
-    · cases h : Src.incCov (sl X 0 X.r (it * k) ((it + 1) * k)) (slV mean (it * k) ((it + 1) * k)) (acc.2.1 it) n bias <;>
-        simp [h, shape0])]
+    · np_cases)]
   cases h : (List.range graph.nVertices).foldlM (Src.denseDiagStep inv X mean n k nc bias) (covs, zeros nf nf) with
   | none => rw [(forLoop_optLoop _ _ _).2 h]; rfl
   | some s => rw [(forLoop_optLoop _ _ _).1 s h]; rfl
@@ -66,11 +76,10 @@ theorem genIncDense_eq (mode : String) (inv : M → Option Nat → M) (X : M) (m
   · simp only [hm, Bool.not_true, Bool.false_eq_true, if_false, if_true]
     rw [loop_congr _ _ _ (optLoop (Src.denseStep mode inv X mean n graph k nc bias)) (by
       intro acc it
-      simp only [optLoop, Src.denseStep, Src.edgeData, Src.edgeMean, Src.storeDense]
+      simp only [optLoop, Src.denseStep, Src.edgeData, Src.edgeMean, Src.storeDense, ite_fst, ite_snd]
       split
       · rfl
-      · split <;>
-        · cases h : Src.incCov _ _ (acc.2.1 it) n bias <;> simp_all [shape0, shape1])]
+      · np_cases)]
     cases h : (List.range graph.nEdges).foldlM (Src.denseStep mode inv X mean n graph k nc bias) (covs, zeros nf nf) with
     | none => rw [(forLoop_optLoop _ _ _).2 h]; rfl
     | some s => rw [(forLoop_optLoop _ _ _).1 s h]; rfl
@@ -91,11 +100,10 @@ theorem genIncSparseDiag_eq (inv : M → Option Nat → M) (X : M) (mean : V) (c
   simp only [genIncCov_eq]
   rw [loop_congr _ _ _ (optLoop (Src.sparseDiagStep inv X mean n k nc bias)) (by
     intro acc it
-    simp only [optLoop, Src.sparseDiagStep]
+    simp only [optLoop, Src.sparseDiagStep, ite_fst, ite_snd]
     split
     · rfl
-    · cases h : Src.incCov (sl X 0 X.r (it * k) ((it + 1) * k)) (slV mean (it * k) ((it + 1) * k)) (acc.2.1 it) n bias <;>
-        simp [h, shape0])]
+    · np_cases)]
   cases h : (List.range graph.nVertices).foldlM (Src.sparseDiagStep inv X mean n k nc bias)
       (covs, zeros3 graph.nVertices k k, zerosV graph.nVertices, zerosV graph.nVertices) with
   | none => rw [(forLoop_optLoop _ _ _).2 h]; rfl
@@ -110,11 +118,10 @@ theorem genIncSparse_eq (mode : String) (inv : M → Option Nat → M) (X : M) (
   · simp only [hm, Bool.not_true, Bool.false_eq_true, if_false, if_true]
     rw [loop_congr _ _ _ (optLoop (Src.sparseStep mode inv X mean n graph k nc bias)) (by
       intro acc it
-      simp only [optLoop, Src.sparseStep, Src.edgeData, Src.edgeMean, Src.storeSparse, Src.push]
+      simp only [optLoop, Src.sparseStep, Src.edgeData, Src.edgeMean, Src.storeSparse, Src.push, ite_fst, ite_snd]
       split
       · rfl
-      · split <;>
-        · cases h : Src.incCov _ _ (acc.2.1 it) n bias <;> simp_all [shape0, shape1])]
+      · np_cases)]
     cases h : (List.range graph.nEdges).foldlM (Src.sparseStep mode inv X mean n graph k nc bias)
         (covs, -1, zeros3 (graph.nEdges * 4) k k, zerosV (graph.nEdges * 4), zerosV (graph.nEdges * 4)) with
     | none => rw [(forLoop_optLoop _ _ _).2 h]; rfl
@@ -137,7 +144,9 @@ theorem genIncrementInner_eq (inv : M → Option Nat → M) (graph : Graph) (spa
       = Src.incrementInner inv graph sparse mode nf k nc bias st data := by
   unfold genIncrementInner Src.incrementInner Src.builder
   simp only [genIncSparseDiag_eq, genIncDenseDiag_eq, genIncSparse_eq, genIncDense_eq, genIncMean_eq]
-  split <;> split <;> (split <;> simp_all [shape0])
+  -- the two facts the dispatch depends on, whatever the tests that read them
+  cases sparse <;> by_cases h : NP.Graph.nEdges graph = 0 <;>
+    simp [h, shape0, genIncSparseDiag_eq, genIncDenseDiag_eq, genIncSparse_eq, genIncDense_eq, genIncMean_eq] <;> np_leaf
 
 theorem genIncrement_eq (inv : M → Option Nat → M) (graph : Graph) (sparse : Bool) (mode : String) (nf k : Nat)
     (nc : Option Nat) (bias : Nat) (st : NP.GState) (incremental : Bool) (samples : Samples) (nsamples : Option Nat) :
@@ -157,11 +166,23 @@ theorem genIncrementObj_eq (inv : M → Option Nat → M) (graph : Graph) (spars
   cases incremental <;> simp [arrayOf]
   split <;> simp_all
 
+/-- the two spellings of "machine epsilon of the least precise floating point operand": `max([e64] + [eps(a) for a in
+(B, U_a, l_a) if inexact(a)])` and the running maximum over the operands -/
+theorem maxList_prec (e0 : Rat) (c1 c2 c3 : Bool) (e1 e2 e3 : Rat) :
+    maxList ([e0] + ((if c1 then [e1] else []) ++ (if c2 then [e2] else []) ++ (if c3 then [e3] else [])))
+      = (if c3 then max (if c2 then max (if c1 then max e0 e1 else e0) e2 else (if c1 then max e0 e1 else e0)) e3
+         else (if c2 then max (if c1 then max e0 e1 else e0) e2 else (if c1 then max e0 e1 else e0))) := by
+  have happ : ∀ a b : List Rat, a + b = a ++ b := fun _ _ => rfl
+  cases c1 <;> cases c2 <;> cases c3 <;> simp [maxList, happ]
+
 theorem genIpca_eq (lib : Lib) (B Ua : M) (la : V) (na : Rat) (ma : Option V) (f eps : Rat) (centre : Option Bool) :
     genIpca lib B Ua la na ma f eps centre = Src.ipca lib B Ua la na ma f eps centre := by
-  unfold genIpca Src.ipca Src.ipcaTail
+  unfold genIpca Src.ipca Src.ipcaTail Src.operandPrec Src.precOf
+  simp only [maxList_prec, dtypeIn, DTypeIn.dtypeIn, Lib.withPrec]
   rcases centre with _ | c <;> rcases ma with _ | m <;>
+    (try cases c) <;>
     simp [NP.the, NP.truthy, shape, shape0, shape1, len]
+  all_goals first | done | (split <;> simp_all) | (repeat' split) <;> simp_all
 
 theorem genPcaIncrement_eq (lib : Lib) (st : PcaState) (data : Samples) (nsamples : Option Nat) (ff : Rat) :
     genPcaIncrement lib st data nsamples ff = Src.pcaIncrement lib ipcaDefaultEps st data nsamples ff := by
@@ -272,7 +293,7 @@ theorem gen_ipca_step_represents (lib : Lib) (centred : Bool) (X Bd : Data) (hX 
         ≤ (lib.svd (tailR lib A Ua sa 1)).2.1.f i * (lib.svd (tailR lib A Ua sa 1)).2.1.f i)
     (hgap : ∀ i, i < (lib.svd (tailR lib A Ua sa 1)).2.1.n →
       (lib.svd (tailR lib A Ua sa 1)).2.1.f i * (lib.svd (tailR lib A Ua sa 1)).2.1.f i = 0 ∨
-      tailThr lib A Ua sa 1 eps ((X.length : ℚ) * 1 + (Bm.r : ℚ))
+      tailThr (lib.withPrec (Src.operandPrec lib Bm Ua la)) A Ua sa 1 eps ((X.length : ℚ) * 1 + (Bm.r : ℚ))
         < (lib.svd (tailR lib A Ua sa 1)).2.1.f i * (lib.svd (tailR lib A Ua sa 1)).2.1.f i
             / ((X.length : ℚ) * 1 + (Bm.r : ℚ) - 1)) :
     let r := genIpca lib Bm Ua la (X.length : ℚ) (some ⟨d, if centred then mean X else zeroVec⟩) 1 eps (some centred)
@@ -299,27 +320,17 @@ theorem gen_pcaIncrement_spec (lib : Lib) (st : PcaState) (X : M) (ff : Rat) :
 
 theorem genAsMatrix_eq (vs : List Sample) (length : Option Nat) : genAsMatrix vs length = Src.asMatrixT vs length := by
   unfold genAsMatrix Src.asMatrixT Src.asMatrixFrom
-  have body : ∀ (acc : Nat × TM) (it : Nat × Sample),
-      (if (!(canCastSameKind (dtypeOf (Sample.asVector it.2)) (dtypeOf acc.2))) = true then
-          (it.1, TM.setRow (TM.astype acc.2 (promote (dtypeOf acc.2) (dtypeOf (Sample.asVector it.2)))) it.1 (Sample.asVector it.2))
-        else (it.1, TM.setRow acc.2 it.1 (Sample.asVector it.2))) = Src.asMatrixStep acc it := by
-    intro acc it
-    simp only [Src.asMatrixStep, dtypeOf, Sample.asVector]
-    by_cases h : canCastSameKind it.2.dt acc.2.dt = true <;> simp [h]
   cases vs with
   | nil => cases length <;> simp
   | cons t rest =>
-    cases length with
-    | none =>
-      simp only [Option.isNone_none, if_true, List.head?_cons, List.tail_cons, forLoop_eq_foldl]
-      simp only [body]
-      simp [dtypeOf, Sample.asVector]
-    | some n =>
-      simp only [Option.isNone_some, Bool.false_eq_true, if_false, List.head?_cons, List.tail_cons, Option.map_some,
-        forLoop_eq_foldl, NP.the, Option.getD_some]
-      simp only [body]
-      simp [dtypeOf, Sample.asVector]
-
+    cases length <;>
+    · simp only [Option.isNone_none, Option.isNone_some, Option.isSome_none, Option.isSome_some, Bool.false_eq_true, if_false,
+        if_true, List.head?_cons, List.tail_cons, Option.map_some, NP.the, Option.getD_some, ite_fst, ite_snd]
+      rw [loop_congr _ _ _ Src.asMatrixStep (by
+        intro acc it
+        simp only [Src.asMatrixStep, dtypeOf, HasDType.dtypeOf, Sample.asVector, ite_fst, ite_snd]
+        by_cases h : canCastSameKind it.2.dt acc.2.dt = true <;> simp [h])]
+      simp [dtypeOf, HasDType.dtypeOf, Sample.asVector]
 
 /-- PROPERTY (`src_asMatrix_exact` about the translated source text): `as_matrix` as it is written now never truncates
 a sample, whatever the storage dtypes and their order -/
